@@ -351,6 +351,9 @@ func (c *Client) Connect(ctx context.Context, t Transport, opts *ClientSessionOp
 					cs.listenCancel = cancelListen
 					if err := cs.subscriptionsListen(listenCtx, subscribeParams); err != nil {
 						cancelListen()
+						// As on the initialize path: no session is returned, so
+						// nobody else can close this one.
+						_ = cs.Close()
 						return nil, fmt.Errorf("opening subscriptions/listen: %w", err)
 					}
 				}
